@@ -126,6 +126,11 @@ let model_step (e : ecfg) (v : vec) (l : line) : mres option =
     let r = into_iter v (nat_of_int (int_of_string f)) (nat_of_int (int_of_string b)) in
     keep { m_res = "front:" ^ show_ids r.c_taken_front ^ ";back:" ^ show_ids r.c_taken_back ^ ";left:" ^ string_of_int (List.length r.c_left);
            m_vec = { v_buf = []; v_len = N0 }; m_drops = r.c_left; m_exact_drops = true }
+  | ["into_slice"; _] ->
+    (* into_bump_slice(_mut) / into_boxed_slice: the contents, where they are; nothing dropped; the
+       vector is consumed (the driver forgets the slice and goes on with a fresh vector) *)
+    let (ids, _) = into_slice v in
+    keep { m_res = "ids:" ^ show_ids ids; m_vec = { v_buf = []; v_len = N0 }; m_drops = []; m_exact_drops = true }
   | ["clone"; k] when k = "0" ->
     (* the clone holds the next fresh identities in order, is shown and dropped; the original stays *)
     (match clone_vec e v l.next with
